@@ -36,6 +36,26 @@ def premise_pos_usize(facts):
     return n, bad
 
 
+def pos_flag_false(b, bb):
+    """Is block bb reached only through the `false` edge of a switch on the sign flag (field 0) of a `PosUsize`?"""
+    flags = set()
+    for blk in b.bbs:
+        for s_ in blk["st"]:
+            if s_.get("k") == "A" and s_["r"].get("k") == "Use":
+                pl = (s_["r"]["o"].get("c") or s_["r"]["o"].get("m") or {})
+                pr = pl.get("pr") or []
+                if "l" in pl and pr and isinstance(pr[-1], dict) and pr[-1].get("f") == 0 and "PosUsize" in b.locals[pl["l"]]["ty"]:
+                    flags.add(s_["p"]["l"])
+    flags = b.derived_from(flags) if flags else set()
+    for i, blk in enumerate(b.bbs):
+        t = blk["t"]
+        if t["k"] == "Switch" and t.get("oty") == "bool" and op_local(t["o"]) in flags:
+            for v, tgt in t["ts"]:
+                if v == 0 and b.edge_dominates((i, tgt), bb):
+                    return True
+    return False
+
+
 def taint_rules(facts, rid, text, fn_filter, floor_tainted):
     T = Taint(facts, FIRST_PARTY)
     T.solve()
@@ -50,6 +70,10 @@ def taint_rules(facts, rid, text, fn_filter, floor_tainted):
             continue
         key = f"{s.kind}/{s.fn}/{s.op}"
         exc = EXCEPTIONS.get((s.fn, s.op))
+        if exc is None and s.op == "Sub" and "PosUsize" in str(s.source) and pos_flag_false(T.bodies[s.fn], s.bb):
+            # the same exception, recognised by what the code does instead of by where it lives: the magnitude of a
+            # from-the-end position (sign flag tested false on every path to the subtraction)
+            exc = EXCEPTIONS[("jaq_json::skip_take_chars::{closure#0}", "Sub")]
         ok = s.sanitised
         how = "guarded by a test of the same value" if ok else None
         if not ok and exc:
